@@ -297,8 +297,6 @@ def run(chk):
     if chk.require("R5 request framing", "R5|Request::try_from", rq, U, "TryFrom<&[u8]> for Request not found"):
         chk.touched(rq)
         rq = _inl17.inlined(p, rq)   # a parser split into private phases is read as one body
-        hl = p.const_bits(U + "commands::REQUEST_HEADER_LEN")
-        chk.ob("R5 request framing", "R5|header-length", hl == 6, U + "commands::REQUEST_HEADER_LEN", "REQUEST_HEADER_LEN = %s (CLA INS P1 P2 + first LC byte; data starts at 7)" % hl)
         Tr = flow.Terms(p, rq)
         iv = intervals.Intervals(p, rq)
         be = names.calls_to(rq, "u32::from_be_bytes")
@@ -319,6 +317,36 @@ def run(chk):
                     while is_call(t_, "Command::from") or is_call(t_, "From::from") or is_call(t_, "Into::into"):
                         t_ = t_[2][0]
                     fv[f_] = bytesview.closed_view(t_)
+        # the header is 7 bytes (CLA INS P1 P2 + 3 LC bytes): the payload handed to the command parsers is frame[7 .. 7 + declared length]
+        def ok_leaves(x, d=0, out=None):
+            out = [] if out is None else out
+            if isinstance(x, tuple) and x and x[0] == "gamma" and d < 14:
+                for l_, b_ in x[2]:
+                    ok_leaves(b_, d + 1, out)
+            elif isinstance(x, tuple) and x and x[0] == "phi" and d < 14:
+                for b_ in x[1]:
+                    ok_leaves(b_, d + 1, out)
+            elif isinstance(x, tuple) and len(x) == 4 and x[0] == "agg" and x[2] == "Ok":
+                out.append(dict(x[3]).get("0"))
+            return out
+        starts = {}
+        for leaf in ok_leaves(N.norm(Tr.place(0, (), rq.return_blocks()[0], "t"))):
+            dterm = N.norm(("field", leaf, "data"))
+            if not (isinstance(dterm, tuple) and len(dterm) == 4 and dterm[0] == "agg" and dterm[2] in ("Register", "Authenticate")):
+                continue
+            got_ = None
+            for x in sub(dterm):
+                pv_ = bytesview.prefix_view(x) if isinstance(x, tuple) and x and x[0] in ("payload", "try", "call") else None
+                if pv_ is not None and pv_[0][0] == IN:
+                    got_ = (pv_[0][1], bytesview.int_decode(N.norm(pv_[1])))
+                    break
+                cv_ = bytesview.view(x) if isinstance(x, tuple) and x and x[0] in ("payload", "try", "call", "subslice_at") else None
+                if cv_ is not None and cv_[0] == IN and cv_[1] >= 7:
+                    got_ = (cv_[1], "to the end" if cv_[2] is None else cv_[2])
+                    break
+            starts[dterm[2]] = got_
+        okhl = set(starts) == {"Register", "Authenticate"} and all(v is not None and v[0] == 7 and v[1] == ("be", (IN, 3, 7)) for v in starts.values())
+        chk.ob("R5 request framing", "R5|header-length", okhl, where(rq), "payload of each command = frame[start .. start + length]: %s (expected start 7, length = the big-endian value of frame[3..7])" % {k: (v[0], ("%s-endian frame[%s..%s]" % (v[1][0], v[1][1][1], v[1][1][2])) if isinstance(v[1], tuple) and len(v[1]) == 2 and isinstance(v[1][1], tuple) else str(v[1])[:60]) if v else None for k, v in sorted(starts.items())})
         chk.ob("R5 request framing", "R5|length-field", dl == ("be", (IN, 3, 7)), where(rq), "declared length = %s" % (("%s-endian value of frame[%s..%s]" % (dl[0], dl[1][1], dl[1][2])) if dl and dl[1][0] == IN else "not a recognised read of the frame"))
         # the shortest frame that gets past the length guard is the bare 7-byte header (a request without data, e.g. VERSION)
         lo = None
